@@ -197,6 +197,9 @@ func splitHeaderOnly(b []byte) ([]byte, error) {
 
 const robustCaseTimeout = 20 * time.Second
 
+// after this many children died or timed out the run stops early
+const maxChildDeaths = 12
+
 // robustChild: args = [casesFile, resultsFile, firstIndex]
 func robustChild(args []string) int {
 	if len(args) < 3 {
@@ -262,7 +265,15 @@ func runIsolated(cases []robustCase, dir string) ([]robustResult, error) {
 	results := make([]robustResult, 0, len(cases))
 	self, _ := os.Executable()
 	next := 0
+	deaths := 0
 	for next < len(cases) {
+		if deaths >= maxChildDeaths {
+			// enough evidence: every further time-out costs 20 s; the remaining cases are reported as not run
+			for i := next; i < len(cases); i++ {
+				results = append(results, robustResult{I: i, Outcome: "notrun"})
+			}
+			return results, nil
+		}
 		cmd := exec.Command(self, "-child", "robust", casesFile, resFile, fmt.Sprint(next))
 		var stderr bytes.Buffer
 		cmd.Stderr = &stderr
@@ -282,6 +293,9 @@ func runIsolated(cases []robustCase, dir string) ([]robustResult, error) {
 			f.Close()
 		}
 		next = len(results)
+		if err != nil {
+			deaths++
+		}
 		if err != nil && next < len(cases) {
 			last := len(results) - 1
 			if last >= 0 && results[last].Outcome == "timeout" {
@@ -546,8 +560,14 @@ func driveC06(c *driverCtx) error {
 	if len(results) != len(cases) {
 		return fmt.Errorf("isolated run returned %d results for %d cases", len(results), len(cases))
 	}
+	notrun := 0
+	defer func() { c.extra["cases_not_run_after_repeated_child_deaths"] = notrun }()
 	for i, rc := range cases {
 		r := results[i]
+		if r.Outcome == "notrun" {
+			notrun++
+			continue
+		}
 		if r.Outcome == "harnessbug" {
 			return fmt.Errorf("panic inside harness code on case %s: %s", rc.Key, r.Detail)
 		}
